@@ -20,17 +20,17 @@ import (
 type replay struct {
 	Harness string `json:"harness"`
 	Prop    string `json:"prop"`
-	Check   string `json:"check"`           // C15: equal | sig; C17: pair | stable | constraint | twobackend; C19: clone
-	Base    string `json:"base,omitempty"`  // name of the base value / shape
-	A       string `json:"a,omitempty"`     // mutation name of the first member ("base" = none)
-	B       string `json:"b,omitempty"`     // mutation name of the second member
-	Type    string `json:"type,omitempty"`  // State | Allocation | Balances | SubAlloc | ...
-	Fn      string `json:"fn,omitempty"`    // comparison function judged
-	IA      int    `json:"ia,omitempty"`    // sub-allocation index in a (SubAlloc pairs)
-	IB      int    `json:"ib,omitempty"`    // sub-allocation index in b
+	Check   string `json:"check"`            // C15: equal | sig; C17: pair | stable | constraint | twobackend; C19: clone
+	Base    string `json:"base,omitempty"`   // name of the base value / shape
+	A       string `json:"a,omitempty"`      // mutation name of the first member ("base" = none)
+	B       string `json:"b,omitempty"`      // mutation name of the second member
+	Type    string `json:"type,omitempty"`   // State | Allocation | Balances | SubAlloc | ...
+	Fn      string `json:"fn,omitempty"`     // comparison function judged
+	IA      int    `json:"ia,omitempty"`     // sub-allocation index in a (SubAlloc pairs)
+	IB      int    `json:"ib,omitempty"`     // sub-allocation index in b
 	Signer  int    `json:"signer,omitempty"` // fixture account that signs
-	Addr    int    `json:"addr,omitempty"`  // fixture account whose address verifies
-	Case    string `json:"case,omitempty"`  // C17 constraint case name
+	Addr    int    `json:"addr,omitempty"`   // fixture account whose address verifies
+	Case    string `json:"case,omitempty"`   // C17 constraint case name
 }
 
 // enc encodes e; ok=false if the value cannot be encoded (error or panic of the encoder).
